@@ -555,15 +555,15 @@ _some4, _nbs4 = _nb(1)
 for nm, st, kind, seqw in [('LIST.NEIGHBOR*BVALS', 'boolvec', 'bool', 'seq_bool'), ('LIST.NEIGHBOR*IVALS', 'intvec', 'int', 'seq_i32'), ('LIST.NEIGHBOR*FVALS', 'floatvec', 'float', 'seq_f32')]:
     row(nm, ['C20'], takes=[('int', 4), ('float', 1)], touches=[st], clauses=[
         ('fired.%s' % st, 'shrunk(S1.%s, S0.%s, 1) && S1.%s.len() >= S0.%s.len()' % (st, st, st, st)),
-        # the position operand is `as usize`: a negative one addresses no point in practice (the default value) -- stated for the non-negative ones
-        ('fired.addressed-values-of-the-neighbourhood', '(S0.int.len() >= 4 && S0.float.len() >= 1 && top(S0.int, 0) >= 0 && %s) ==> (S1.%s.len() == S0.%s.len() + 1 '
-         '&& top(S1.%s, 0).values@ == crate::push::list::nvals_%s(S0.code, %s, top(S0.int, 0) as nat, %s.len()))' % (_some4, st, st, st, kind, _nbs4, _nbs4)),
+        # the position operand is `as usize`, negative ones included: the specification uses the same cast as the code
+        ('fired.addressed-values-of-the-neighbourhood', '(S0.int.len() >= 4 && S0.float.len() >= 1 && %s) ==> (S1.%s.len() == S0.%s.len() + 1 '
+         '&& top(S1.%s, 0).values@ == crate::push::list::nvals_%s(S0.code, %s, top(S0.int, 0) as usize as nat, %s.len()))' % (_some4, st, st, st, kind, _nbs4, _nbs4)),
         ('fired.no-result-for-invalid-topology', '(S0.int.len() >= 4 && S0.float.len() >= 1 && !%s) ==> S1.%s == S0.%s' % (_some4, st, st)),
         ('{C20,C10}unfired.%s' % st, '!(S0.int.len() >= 4 && S0.float.len() >= 1) ==> S1.%s == S0.%s' % (st, st))])
     FN_OVERLAYS['list::list_neighbor_%ss' % {'bool': 'bval', 'int': 'ival', 'float': 'fval'}[kind]] = dict(loops={0: '''
             //bind R = let mut (\\w+)(?:\\s*:[^=;]+)? = (?:vec!\\[\\]|Vec::new\\(\\)|Vec::with_capacity\\([^;]*\\));
             //bind NBV = if let Some\\((\\w+)\\) =\\s*Topology::find_neighbors
-            //bind POS = let (\\w+) = topology\\[3\\] as usize;
+            //bind POS = let (\\w+)(?:\\s*:[^=;]+)? = [^;]*topology\\[3\\][^;]*;
             invariant %s ghost_iter.seq().len() == $NBV.values@.len(), ghost_iter.index@ <= $NBV.values@.len(),
                 forall|k: int| 0 <= k < $NBV.values@.len() ==> *#[trigger] ghost_iter.seq()[k] == $NBV.values@[k],
                 forall|k: int| 0 <= k < $NBV.values@.len() ==> 0 <= #[trigger] $NBV.values@[k],
